@@ -85,6 +85,11 @@ CHECKS = {
         text="A scripted server that answers everything it receives closes connections after a response, when idle, abortively, by restart on the same port, after the reconnect notice (also keeping the noticed connection open for a while), right after accept, and goes down while a call is attempted; after each close the monitor waits until the client registered it and issues 1 or 8 concurrent calls after delays on both sides of the sender goroutine's 1 s poll, over many cycles, followed by sequential follow-up calls. Each call must succeed with its own token within half its timeout, its request must arrive exactly once, never on a connection announced as closing, no call may hang, and no further connection may be opened while the current one is healthy.",
         note="Calls racing with the close itself are outside the verdict. Interleavings of the client's sender/receiver goroutines are those that occur over the repeated cycles.",
         design="DESIGN.md §4 C11"),
+    "C15": dict(
+        technique="runtime monitor: trace assertions P1-P6 over token-joined logs of real calls against scripted per-endpoint servers behind a fake registrar, virtual time through hook-shifted health timestamps and hook-driven status checks",
+        text="A real communicator/endpoint manager/adapters resolve 2..4 endpoints (distinct loopback hosts) from a fake registrar; one scripted server per endpoint answers, stays silent or refuses per step; seeded scripts mix call batches (60 ms timeout), behaviour changes, virtual time advances and status checks, and end with a healing tail. Which server receives which token, the active list and the adapters' health records are observed; the assertions check: no removal without / with fewer than two failures, removal after >=5 consecutive failures over >=8 s while another endpoint is active, at most one probe per 27 s to a blocked endpoint, reinstatement iff the probe succeeded, calls still attempted when every endpoint is blocked, and return of every healed endpoint.",
+        note="Virtual time shifts lastSuccessTime/lastBlockTime/lastCheckTime (all health comparisons have the form now - stamp >= K) and adds the real seconds elapsed; 3 s margins around the thresholds. The automatic ticker is set to 1 h through the first application's client configuration.",
+        design="DESIGN.md §4 C15"),
 }
 
 NOT_BUILT_REASON = "check not built yet in this session (runtime-monitoring design exists in DESIGN.md §4; machinery in progress) — not claimed until its monitor runs silent on the unchanged tree"
